@@ -138,6 +138,20 @@ CLAIMED = {
         "model-based stateful property testing (Hypothesis op-list histories + RuleBasedStateMachine)",
         "3/C09",
     ),
+    "C10": (
+        "Each generated case (every non-random rule, tie-rich profiles, all tiebreak settings) is run under three "
+        "random layers (generated seed-or-script, all-zeros script, all-999 script).  (a) metamorphic: with no "
+        "recorded tiebreak all three outcomes are identical; (b) every recorded tiebreak is judged against "
+        "independently computed tallies/tiers: genuine tie at the seat boundary or elimination end, resolution a "
+        "strict order of exactly that set, obeyed by the round's groups, and no tie decision without a record; "
+        "(c) borda / first_place resolutions are non-increasing in that score of the profile in hand (captured on "
+        "entry of the round).",
+        "Deciding tally of a round = previous round's recorded scores (C02/C04 tie those to the ballots); "
+        "random_transfer and the intentionally random rules are excluded; inner STV rounds of Alaska are not "
+        "checked for clause (c).",
+        "property-based testing (Hypothesis) with scripted random streams: metamorphic seed-independence + tiebreak-record validity predicates",
+        "3/C10",
+    ),
 }
 
 PENDING_REASON = "check not built yet in this session; the design (DESIGN.md section 3) claims it and it will be registered once it is quiet on the unchanged tree and catches its mutants"
